@@ -113,24 +113,24 @@ impl Serialize for AsData<'_> {
             Val::Struct(l) => {
                 let mut q = s.serialize_struct("S", l.len())?;
                 for (i, x) in l.iter().enumerate() {
-                    q.serialize_field(FNAMES[i], &AsData(x))?;
+                    q.serialize_field(fname(i), &AsData(x))?;
                 }
                 q.end()
             }
             Val::Variant { pos, idx, data } => match data {
-                VVal::Unit => s.serialize_unit_variant("E", *idx, VNAMES[*pos]),
-                VVal::Newtype(x) => s.serialize_newtype_variant("E", *idx, VNAMES[*pos], &AsData(x)),
+                VVal::Unit => s.serialize_unit_variant("E", *idx, vname(*pos)),
+                VVal::Newtype(x) => s.serialize_newtype_variant("E", *idx, vname(*pos), &AsData(x)),
                 VVal::Tuple(l) => {
-                    let mut q = s.serialize_tuple_variant("E", *idx, VNAMES[*pos], l.len())?;
+                    let mut q = s.serialize_tuple_variant("E", *idx, vname(*pos), l.len())?;
                     for x in l {
                         q.serialize_field(&AsData(x))?;
                     }
                     q.end()
                 }
                 VVal::Struct(l) => {
-                    let mut q = s.serialize_struct_variant("E", *idx, VNAMES[*pos], l.len())?;
+                    let mut q = s.serialize_struct_variant("E", *idx, vname(*pos), l.len())?;
                     for (i, x) in l.iter().enumerate() {
-                        q.serialize_field(FNAMES[i], &AsData(x))?;
+                        q.serialize_field(fname(i), &AsData(x))?;
                     }
                     q.end()
                 }
@@ -360,7 +360,7 @@ impl<'de> Visitor<'de> for EnumV<'_> {
             }
             VShape::Newtype(s) => VVal::Newtype(Box::new(va.newtype_variant_seed(self.seed.sub(s))?)),
             VShape::Tuple(l) => VVal::Tuple(va.tuple_variant(l.len(), ListV { shapes: l, seed: self.seed })?),
-            VShape::Struct(l) => VVal::Struct(va.struct_variant(FIELDS[l.len()], ListV { shapes: l, seed: self.seed })?),
+            VShape::Struct(l) => VVal::Struct(va.struct_variant(field_names(l.len()), ListV { shapes: l, seed: self.seed })?),
         };
         Ok(Val::Variant { pos, idx, data })
     }
@@ -396,9 +396,9 @@ impl<'de, 's> DeserializeSeed<'de> for ShapeSeed<'s> {
             S::TupleStruct(l) => {
                 Ok(Val::TupleStruct(d.deserialize_tuple_struct("TS", l.len(), ListV { shapes: l, seed: self })?))
             }
-            S::Struct(l) => Ok(Val::Struct(d.deserialize_struct("S", FIELDS[l.len()], ListV { shapes: l, seed: self })?)),
+            S::Struct(l) => Ok(Val::Struct(d.deserialize_struct("S", field_names(l.len()), ListV { shapes: l, seed: self })?)),
             S::Map(k, v) => d.deserialize_map(MapV(self.sub(k), self.sub(v))),
-            S::Enum(vs) => d.deserialize_enum("E", VARIANTS[vs.len()], EnumV { variants: vs, seed: self }),
+            S::Enum(vs) => d.deserialize_enum("E", variant_names(vs.len()), EnumV { variants: vs, seed: self }),
         }
     }
 }
